@@ -66,10 +66,11 @@ pub fn run(tier: Tier) -> Report {
         rule_jsons,
         max_depth: tier.pick(8, 26),
         max_states: tier.pick(400, 5000),
-        env_seed: behave::no_env,
-        env_out: behave::no_env,
-        classify,
+        env_seed: behave::env_none(),
+        env_out: behave::env_none(),
+        classify: std::sync::Arc::new(classify),
         extra_gens: vec![],
+        judge_root: true,
     };
     behave::run(spec, tier, report)
 }
